@@ -34,6 +34,10 @@ pub struct SlowReq {
     pub read_gap_ms: u64,
     /// supplies its own (forged) routing tag
     pub forged_cid: bool,
+    /// every request frame reaches the server in two pieces: all but its last `split_tail` bytes,
+    /// a pause, then the rest (0: written in one piece)
+    #[serde(default)]
+    pub split_tail: usize,
 }
 
 #[derive(Clone, Debug, Serialize, Deserialize)]
@@ -57,6 +61,7 @@ pub fn gen_script(rng: &mut Rng) -> RsScript {
                 stall_ms: *rng.pick(&[0u64, 0, 300, 1_500, 4_000]),
                 read_gap_ms: *rng.pick(&[0u64, 0, 5, 50]),
                 forged_cid: rng.chance(1, 4),
+                split_tail: if rng.chance(1, 3) { rng.usize(1, 12) } else { 0 },
             })
             .collect(),
     }
@@ -104,7 +109,23 @@ async fn requestor(world: Rc<World>, idx: usize, spec: SlowReq, group: u32) -> R
         if spec.forged_cid {
             h.insert("cid".to_string(), format!("{}", (idx + 1) % 4));
         }
-        if let Err(e) = stream.send(Frame::Message(MessagePayload { headers: Some(h), message: Bytes::from(format!("R{idx}:{i}")) })).await {
+        let frame = Frame::Message(MessagePayload { headers: Some(h), message: Bytes::from(format!("R{idx}:{i}")) });
+        if spec.split_tail > 0 {
+            use tokio_util::codec::Encoder;
+            let mut buf = bytes::BytesMut::new();
+            if selium_protocol::MessageCodec.encode(frame, &mut buf).is_err() {
+                rep.notes.push(format!("encode {i} failed"));
+                break;
+            }
+            let cut = buf.len().saturating_sub(spec.split_tail);
+            let a = stream.write().write_all(&buf[..cut]).await;
+            tokio::time::sleep(Duration::from_millis(20)).await;
+            let b = stream.write().write_all(&buf[cut..]).await;
+            if a.is_err() || b.is_err() {
+                rep.notes.push(format!("send {i} failed"));
+                break;
+            }
+        } else if let Err(e) = stream.send(frame).await {
             rep.notes.push(format!("send {i} failed: {e}"));
             break;
         }
@@ -227,6 +248,7 @@ pub fn execute(prop: &str, sc: &RsScript, opts: &ExecOpts) -> Outcome {
                         }
                     }
                     out.fault_n("requestor_stalled_behind_small_window", stalled);
+                    out.fault_n("request_frame_split_near_its_end", sc.requestors.iter().filter(|r| r.split_tail > 0).map(|r| r.n_requests as u64).sum());
                     out.nontrivial = stalled > 0;
                     out.steps = reps.iter().map(|r| r.replies.len() as u64).sum();
                     out.probe_n("replies_checked_end_to_end", out.steps);
@@ -295,6 +317,11 @@ impl Family for RrSlow {
             if sc.requestors[i].read_gap_ms > 0 {
                 let mut c = sc.clone();
                 c.requestors[i].read_gap_ms = 0;
+                out.push(c);
+            }
+            if sc.requestors[i].split_tail > 0 {
+                let mut c = sc.clone();
+                c.requestors[i].split_tail = 0;
                 out.push(c);
             }
             if sc.requestors[i].forged_cid {
